@@ -58,7 +58,7 @@ CLAIMS = {
             "all enabled sequences over start/stop/send/occupy/release/context actions (bodies raising three kinds of exception) are executed on a real bridge with real sockets; after every action is_running, port bindability and probe delivery are compared with the lifecycle model; BFS to a fixpoint; a TLA+ model checked by TLC with every edge of its state graph replayed on the bridge; in-flight datagrams for every delay before stop; twin bridges (disjoint and shared port); unusable port numbers; start() cancelled after every number of loop iterations; one bridge moved to a second event loop",
             "ports are private to the harness (flock-ed block outside the ephemeral range)", "5/C17"),
     "C18": ("model_checking", "stateless exploration of all action sequences to a depth + BFS with state hashing to a fixpoint on a controlled loop + TLC-checked TLA+ model with every edge replayed on the implementation",
-            "all enabled sequences over 14 actions (connect, refused, four kinds of operation incl. one abandoned by its caller, five context bodies, refused context, device drop, disconnect) for both API classes are executed on the real client; after every action the connected flag and the device-side end-of-stream are compared with the lifecycle model; BFS to a fixpoint; a TLA+ model checked by TLC with every edge replayed on the client; twin clients; one client moved to a second event loop; a real-TCP subset",
+            "all enabled sequences over 14 actions (connect, refused, four kinds of operation incl. one abandoned by its caller, five context bodies, refused context, device drop, disconnect) for both API classes are executed on the real client; after every action the connected flag and the device-side end-of-stream are compared with the lifecycle model; BFS to a fixpoint; a TLA+ model checked by TLC with every edge replayed on the client; twin clients; one client moved to a second event loop; disconnect() cancelled after every number of loop iterations; a real-TCP subset",
             "socketpair stands in for TCP except in the real-TCP subset of the thorough tier", "5/C18"),
     "C19": ("exploration", "complete enumeration of the finite table space (four construction styles incl. an empty subclass, four rounds, a python -O pass)",
             "all 9 types x 4 classes and every category in both port tables are enumerated", "none", "5/C19"),
